@@ -123,7 +123,8 @@ def kernels(prog):
     out = []
     for key, fi in prog.functions.items():
         if fi.module is m and any(isinstance(s, ast.While) for s in fi.node.body):
-            out.append(Kernel(fi))
+            from ..inline import inlined
+            out.append(Kernel(inlined(prog, fi)))     # closing predicates may live in private (cdef inline) helpers
     if len(out) != 2:
         raise AnalysisError("expected two loop kernels in extension.pyx, found %d" % len(out))
     return out
@@ -159,6 +160,8 @@ def env_before(k: Kernel, stmt):
                             env[t.id] = ("idx", iv)
                         elif isinstance(v, ast.Call) and call_name(v) in ("fabs", "abs", "np.abs"):
                             env[t.id] = ("expr", v)
+                        elif isinstance(v, (ast.BoolOp, ast.Compare)):
+                            env[t.id] = ("expr", v)          # a closing predicate computed into a local (inlined helper)
                         else:
                             env.pop(t.id, None)
             for sub in ("body", "orelse"):
@@ -380,6 +383,9 @@ def _r1_r2_kernels(ctx):
         br = closing_branch(k)
         env = env_before(k, br)
         atom = atomizer(k, env)
+        if isinstance(br.test, ast.Name) and br.test.id in env and env[br.test.id][0] == "expr":
+            # the predicate was computed into a local first (an inlined private helper): decide it where it is defined
+            br = ast.If(test=env[br.test.id][1], body=br.body, orelse=br.orelse)
         def _mentions(e, slot):
             return any(isinstance(x, ast.expr) and k.value_of(x, env, 0) == slot for x in ast.walk(e))
         is_four = any(v == ("val", SL(-3)) for v in env.values()) or _mentions(br.test, SL(-3)) or \
